@@ -1,5 +1,5 @@
 (* C20Proofs.v — lemmas behind props/C20.v *)
-From SV Require Import Base Json Discover Migrate CorrC19 CorrC20 C19Proofs.
+From SV Require Import Base Json Discover Migrate CorrC19 PathAlg C19Proofs CorrC20.
 From Coq Require Import Arith.
 
 Local Opaque FUEL.
@@ -143,3 +143,421 @@ Proof.
   - vm_compute. reflexivity.
   - vm_compute. reflexivity.
 Qed.
+
+(* ------------------------------------------------------------------ path walk, one step at a time
+   (fuel kept abstract so that simplification never unfolds the walk into unexplored branches) *)
+Definition FUEL5 : nat := 594%nat.
+Lemma FUEL_unfold : FUEL = S (S (S (S (S (S FUEL5))))).
+Proof. reflexivity. Qed.
+Global Opaque FUEL5.
+
+Lemma W_nil : forall f root rc, walk (S f) root rc [] = Some (rev rc).
+Proof. reflexivity. Qed.
+
+Lemma W_skip : forall f root rc rest, walk (S f) root rc ([] :: rest) = walk f root rc rest.
+Proof. reflexivity. Qed.
+
+Lemma W_look : forall f root rc c rest es, cleanb c = true -> get root (rev rc) = Some (Dir es) ->
+  walk (S f) root rc (c :: rest) =
+  match alookup c es with
+  | None => None
+  | Some (Dir _) => walk f root (c :: rc) rest
+  | Some (File _) => match rest with [] => Some (rev (c :: rc)) | _ => None end
+  | Some (Link t) =>
+      match t with
+      | [] => None
+      | _ => walk f root (if starts_sl t then [] else rc) (split_sl t ++ rest)
+      end
+  end.
+Proof.
+  intros f root rc c rest es H G. destruct (cleanb_inv c H) as [_ [E1 [E2 E3]]].
+  simpl. rewrite E1, E2, E3. simpl. rewrite G. reflexivity.
+Qed.
+
+Definition nolink (x : option node) : Prop := match x with Some (Link _) => False | _ => True end.
+
+Section World.
+  Variable es : list (str * node).
+  Let root := world es.
+
+  Lemma get_root_nil : get root (rev []) = Some (Dir [(s_p, Dir es)]).
+  Proof. reflexivity. Qed.
+
+  Lemma get_p : get root (rev [s_p]) = Some (Dir es).
+  Proof. reflexivity. Qed.
+
+  Lemma clean_p : cleanb s_p = true.
+  Proof. reflexivity. Qed.
+
+  Lemma pj_child : forall n, cleanb n = true -> path_join P0 n = P0 ++ SL :: n.
+  Proof.
+    intros n H. destruct (first_char_clean n H) as [x [r [-> Hx]]].
+    unfold path_join. simpl starts_sl. rewrite Hx. reflexivity.
+  Qed.
+
+  Lemma split_child : forall n, cleanb n = true ->
+    split_sl (os_full CWD0 (path_join P0 n)) = [[]; s_p; n].
+  Proof.
+    intros n H. rewrite (pj_child n H). unfold os_full. simpl starts_sl. cbv iota.
+    rewrite split_sl_app. destruct (cleanb_inv n H) as [Hs _].
+    rewrite (split_sl_slashfree n Hs). reflexivity.
+  Qed.
+
+  Lemma pj_nonempty : forall n, cleanb n = true -> path_join P0 n <> [].
+  Proof. intros n H. rewrite (pj_child n H). discriminate. Qed.
+
+  (* where a child of the project directory resolves to *)
+  Lemma resolve_child : forall n, cleanb n = true -> nolink (alookup n es) ->
+    os_resolve root CWD0 (path_join P0 n) =
+    match alookup n es with Some _ => Some [s_p; n] | None => None end.
+  Proof.
+    intros n H NL. unfold os_resolve.
+    destruct (path_join P0 n) eqn:E; [exfalso; eapply pj_nonempty; eauto|]. rewrite <- E.
+    rewrite (split_child n H), FUEL_unfold, W_skip.
+    rewrite (W_look _ root [] s_p [n] _ clean_p get_root_nil).
+    change (alookup s_p [(s_p, Dir es)]) with (Some (Dir es)). cbv iota.
+    rewrite (W_look _ root [s_p] n [] es H get_p).
+    destruct (alookup n es) as [[d|e2|t]|]; try reflexivity. contradiction.
+  Qed.
+
+  Lemma stat_child : forall n, cleanb n = true -> nolink (alookup n es) ->
+    os_stat root CWD0 (path_join P0 n) = alookup n es.
+  Proof.
+    intros n H NL. unfold os_stat. rewrite (resolve_child n H NL).
+    destruct (alookup n es) eqn:E; [|reflexivity].
+    change (get root [s_p; n]) with (match alookup n es with Some n' => get n' [] | None => None end).
+    rewrite E. reflexivity.
+  Qed.
+
+  Lemma lresolve_child : forall n, cleanb n = true ->
+    os_lresolve root CWD0 (path_join P0 n) = Some ([s_p], n).
+  Proof.
+    intros n H. unfold os_lresolve.
+    destruct (path_join P0 n) eqn:E; [exfalso; eapply pj_nonempty; eauto|]. rewrite <- E.
+    rewrite (split_child n H).
+    destruct (cleanb_inv n H) as [_ [E1 [E2 E3]]].
+    simpl filter. unfold Migrate.nonempty. rewrite E1. simpl rev. cbv iota.
+    rewrite E2, E3. simpl orb. cbv iota. simpl rev.
+    rewrite FUEL_unfold. rewrite (W_look _ root [] s_p [] _ clean_p get_root_nil).
+    change (alookup s_p [(s_p, Dir es)]) with (Some (Dir es)). cbv iota.
+    rewrite W_nil. reflexivity.
+  Qed.
+
+  (* grandchildren: <root>/a/b for a directory a *)
+  Lemma pj_child2 : forall a b, cleanb a = true -> cleanb b = true ->
+    path_join (path_join P0 a) b = P0 ++ SL :: a ++ SL :: b.
+  Proof.
+    intros a b Ha Hb. rewrite (pj_child a Ha).
+    destruct (first_char_clean b Hb) as [x [r [-> Hx]]].
+    unfold path_join. simpl starts_sl. rewrite Hx.
+    assert (E : ends_sl (P0 ++ SL :: a) = false).
+    { assert (Z : P0 ++ SL :: a = abs_of [s_p; a]) by reflexivity. rewrite Z.
+      apply ends_sl_abs_of; [discriminate|]. simpl. rewrite Ha. reflexivity. }
+    rewrite E. rewrite <- app_assoc. reflexivity.
+  Qed.
+
+  Lemma split_child2 : forall a b, cleanb a = true -> cleanb b = true ->
+    split_sl (os_full CWD0 (path_join (path_join P0 a) b)) = [[]; s_p; a; b].
+  Proof.
+    intros a b Ha Hb. rewrite (pj_child2 a b Ha Hb). unfold os_full. simpl starts_sl. cbv iota.
+    rewrite split_sl_app, split_sl_app.
+    destruct (cleanb_inv a Ha) as [Hsa _]. destruct (cleanb_inv b Hb) as [Hsb _].
+    rewrite (split_sl_slashfree a Hsa), (split_sl_slashfree b Hsb). reflexivity.
+  Qed.
+
+  Lemma stat_child2 : forall a b cd, cleanb a = true -> cleanb b = true ->
+    alookup a es = Some (Dir cd) -> nolink (alookup b cd) ->
+    os_stat root CWD0 (path_join (path_join P0 a) b) = alookup b cd.
+  Proof.
+    intros a b cd Ha Hb La NL. unfold os_stat, os_resolve.
+    destruct (path_join (path_join P0 a) b) eqn:E;
+      [rewrite (pj_child2 a b Ha Hb) in E; discriminate|]. rewrite <- E.
+    rewrite (split_child2 a b Ha Hb), FUEL_unfold, W_skip.
+    rewrite (W_look _ root [] s_p [a; b] _ clean_p get_root_nil).
+    change (alookup s_p [(s_p, Dir es)]) with (Some (Dir es)). cbv iota.
+    rewrite (W_look _ root [s_p] a [b] es Ha get_p). rewrite La.
+    assert (G : get root (rev [a; s_p]) = Some (Dir cd)).
+    { simpl rev. simpl app. change (get root [s_p; a]) with (match alookup a es with Some n' => get n' [] | None => None end).
+      rewrite La. reflexivity. }
+    rewrite (W_look _ root [a; s_p] b [] cd Hb G).
+    destruct (alookup b cd) as [[d|e2|t]|] eqn:Lb; try contradiction; try reflexivity.
+    - simpl rev. simpl app.
+      change (get root [s_p; a; b]) with (match alookup a es with Some n' => get n' [b] | None => None end).
+      rewrite La. simpl. rewrite Lb. reflexivity.
+    - rewrite W_nil. simpl rev. simpl app.
+      change (get root [s_p; a; b]) with (match alookup a es with Some n' => get n' [b] | None => None end).
+      rewrite La. simpl. rewrite Lb. reflexivity.
+  Qed.
+
+  Lemma lresolve_child2 : forall a b cd, cleanb a = true -> cleanb b = true ->
+    alookup a es = Some (Dir cd) ->
+    os_lresolve root CWD0 (path_join (path_join P0 a) b) = Some ([s_p; a], b).
+  Proof.
+    intros a b cd Ha Hb La. unfold os_lresolve.
+    destruct (path_join (path_join P0 a) b) eqn:E;
+      [rewrite (pj_child2 a b Ha Hb) in E; discriminate|]. rewrite <- E.
+    rewrite (split_child2 a b Ha Hb).
+    destruct (cleanb_inv a Ha) as [_ [A1 _]]. destruct (cleanb_inv b Hb) as [_ [B1 [B2 B3]]].
+    simpl filter. unfold Migrate.nonempty. rewrite A1, B1. simpl rev. cbv iota.
+    rewrite B2, B3. simpl orb. cbv iota. simpl rev.
+    rewrite FUEL_unfold. rewrite (W_look _ root [] s_p [a] _ clean_p get_root_nil).
+    change (alookup s_p [(s_p, Dir es)]) with (Some (Dir es)). cbv iota.
+    rewrite (W_look _ root [s_p] a [] es Ha get_p). rewrite La. rewrite W_nil.
+    simpl rev. simpl app.
+    change (get root [s_p; a]) with (match alookup a es with Some n' => get n' [] | None => None end).
+    rewrite La. reflexivity.
+  Qed.
+End World.
+
+(* ------------------------------------------------------------------ file-system steps inside /p *)
+Lemma upd_child : forall es n x,
+  upd [s_p; n] x (world es) = world (match x with Some x' => aset n x' es | None => aremove n es end).
+Proof. intros es n x. destruct x; reflexivity. Qed.
+
+Lemma upd_child2 : forall es a b cd x, alookup a es = Some (Dir cd) ->
+  upd [s_p; a; b] x (world es) =
+  world (aset a (Dir (match x with Some x' => aset b x' cd | None => aremove b cd end)) es).
+Proof.
+  intros es a b cd x La. unfold world. simpl. rewrite La. destruct x; reflexivity.
+Qed.
+
+Lemma get_child : forall es n, get (world es) [s_p; n] = alookup n es.
+Proof. intros. unfold world. simpl. destruct (alookup n es); reflexivity. Qed.
+
+Lemma get_child2 : forall es a b cd, alookup a es = Some (Dir cd) -> get (world es) [s_p; a; b] = alookup b cd.
+Proof. intros es a b cd La. unfold world. simpl. rewrite La. destruct (alookup b cd); reflexivity. Qed.
+
+Lemma neq_eqb : forall a b : str, a <> b -> str_eqb a b = false.
+Proof. intros a b H. apply str_eqb_neq. exact H. Qed.
+
+Lemma replace_child : forall es a b x, cleanb a = true -> cleanb b = true ->
+  alookup a es = Some x -> a <> b -> alookup b es = None ->
+  fs_replace (world es) CWD0 (path_join P0 a) (path_join P0 b) = (Ok tt, world (aset b x (aremove a es))).
+Proof.
+  intros es a b x Ha Hb La Nab Lb. unfold fs_replace.
+  rewrite (lresolve_child es a Ha), (lresolve_child es b Hb). simpl app.
+  rewrite get_child, La, get_child, Lb.
+  simpl list_eqb. rewrite (neq_eqb a b Nab). simpl andb. cbv iota.
+  simpl is_prefix. rewrite (neq_eqb a b Nab). simpl andb. cbv iota.
+  rewrite upd_child, upd_child. destruct x; reflexivity.
+Qed.
+
+Lemma replace_child_missing : forall es a b, cleanb a = true -> cleanb b = true ->
+  alookup a es = None ->
+  fs_replace (world es) CWD0 (path_join P0 a) (path_join P0 b) = (Err EOSError, world es).
+Proof.
+  intros es a b Ha Hb La. unfold fs_replace.
+  rewrite (lresolve_child es a Ha), (lresolve_child es b Hb). simpl app.
+  rewrite get_child, La. reflexivity.
+Qed.
+
+Lemma replace_into : forall es a d b cd fd, cleanb a = true -> cleanb d = true -> cleanb b = true ->
+  alookup a es = Some (File fd) -> alookup d es = Some (Dir cd) -> a <> d ->
+  (alookup b cd = None \/ exists f0, alookup b cd = Some (File f0)) ->
+  fs_replace (world es) CWD0 (path_join P0 a) (path_join (path_join P0 d) b)
+  = (Ok tt, world (aset d (Dir (aset b (File fd) cd)) (aremove a es))).
+Proof.
+  intros es a d b cd fd Ha Hd Hb La Ld Nad Lb. unfold fs_replace.
+  rewrite (lresolve_child es a Ha), (lresolve_child2 es d b cd Hd Hb Ld). simpl app.
+  rewrite get_child, La. rewrite (get_child2 es d b cd Ld).
+  simpl list_eqb. rewrite (neq_eqb a d Nad). simpl andb. cbv iota.
+  simpl is_prefix. rewrite (neq_eqb a d Nad). simpl andb. cbv iota.
+  rewrite upd_child.
+  assert (Ld' : alookup d (aremove a es) = Some (Dir cd)) by (rewrite alookup_aremove_other; auto).
+  rewrite (upd_child2 (aremove a es) d b cd (Some (File fd)) Ld').
+  destruct Lb as [Lb | [f0 Lb]]; rewrite Lb; reflexivity.
+Qed.
+
+Lemma mkdir_child : forall es d, cleanb d = true -> alookup d es = None ->
+  fs_mkdir (world es) CWD0 (path_join P0 d) = (Ok tt, world (aset d (Dir []) es)).
+Proof.
+  intros es d Hd Ld. unfold fs_mkdir. rewrite (lresolve_child es d Hd). simpl app.
+  rewrite get_child, Ld, upd_child. reflexivity.
+Qed.
+
+Lemma mkdir_child_exists : forall es d x, cleanb d = true -> alookup d es = Some x ->
+  fs_mkdir (world es) CWD0 (path_join P0 d) = (Err EOSError, world es).
+Proof.
+  intros es d x Hd Ld. unfold fs_mkdir. rewrite (lresolve_child es d Hd). simpl app.
+  rewrite get_child, Ld. reflexivity.
+Qed.
+
+Lemma write_child : forall es n data, cleanb n = true ->
+  (alookup n es = None \/ exists d0, alookup n es = Some (File d0)) ->
+  fs_write (world es) CWD0 (path_join P0 n) data = (Ok tt, world (aset n (File data) es)).
+Proof.
+  intros es n data Hn L. unfold fs_write.
+  assert (NL : nolink (alookup n es)) by (destruct L as [L|[d0 L]]; rewrite L; exact I).
+  rewrite (resolve_child es n Hn NL).
+  destruct L as [L|[d0 L]]; rewrite L.
+  - rewrite (lresolve_child es n Hn). simpl app. rewrite get_child, L, upd_child. reflexivity.
+  - rewrite get_child, L, upd_child. reflexivity.
+Qed.
+
+Lemma write_child2 : forall es a b cd d0 data, cleanb a = true -> cleanb b = true ->
+  alookup a es = Some (Dir cd) -> alookup b cd = Some (File d0) ->
+  fs_write (world es) CWD0 (path_join (path_join P0 a) b) data
+  = (Ok tt, world (aset a (Dir (aset b (File data) cd)) es)).
+Proof.
+  intros es a b cd d0 data Ha Hb La Lb. unfold fs_write.
+  assert (R : os_resolve (world es) CWD0 (path_join (path_join P0 a) b) = Some [s_p; a; b]).
+  { unfold os_resolve.
+    destruct (path_join (path_join P0 a) b) eqn:E;
+      [rewrite (pj_child2 a b Ha Hb) in E; discriminate|]. rewrite <- E.
+    rewrite (split_child2 a b Ha Hb), FUEL_unfold, W_skip.
+    rewrite (W_look _ (world es) [] s_p [a; b] _ clean_p (get_root_nil es)).
+    change (alookup s_p [(s_p, Dir es)]) with (Some (Dir es)). cbv iota.
+    rewrite (W_look _ (world es) [s_p] a [b] es Ha (get_p es)). rewrite La.
+    assert (G : get (world es) (rev [a; s_p]) = Some (Dir cd)).
+    { simpl rev. simpl app. rewrite get_child. exact La. }
+    rewrite (W_look _ (world es) [a; s_p] b [] cd Hb G). rewrite Lb. reflexivity. }
+  rewrite R. rewrite (get_child2 es a b cd La), Lb.
+  rewrite (upd_child2 es a b cd (Some (File data)) La). reflexivity.
+Qed.
+
+(* ------------------------------------------------------------------ loaders inside /p *)
+Lemma clean_rc : cleanb s_rc = true. Proof. reflexivity. Qed.
+Lemma clean_dotsignac : cleanb s_dotsignac = true. Proof. reflexivity. Qed.
+Lemma clean_config : cleanb s_config = true. Proof. reflexivity. Qed.
+Lemma clean_workspace : cleanb s_workspace = true. Proof. reflexivity. Qed.
+Lemma clean_doc : cleanb s_doc = true. Proof. reflexivity. Qed.
+
+Lemma isfile_child : forall es n, cleanb n = true -> nolink (alookup n es) ->
+  os_isfile (world es) CWD0 (path_join P0 n) = match alookup n es with Some (File _) => true | _ => false end.
+Proof. intros es n H NL. unfold os_isfile. rewrite (stat_child es n H NL). reflexivity. Qed.
+
+Lemma exists_child : forall es n, cleanb n = true -> nolink (alookup n es) ->
+  os_exists (world es) CWD0 (path_join P0 n) = match alookup n es with Some _ => true | None => false end.
+Proof. intros es n H NL. unfold os_exists. rewrite (stat_child es n H NL). reflexivity. Qed.
+
+Lemma load_v1_world : forall es c name, alookup s_rc es = Some (File (FCfg c)) -> cproj c = Some name ->
+  load_v1 (world es) CWD0 P0 = Some c.
+Proof.
+  intros es c name L Pn. unfold load_v1, read_cfg.
+  assert (NL : nolink (alookup s_rc es)) by (rewrite L; exact I).
+  rewrite (isfile_child es s_rc clean_rc NL), (stat_child es s_rc clean_rc NL), L, Pn. reflexivity.
+Qed.
+
+Lemma load_v1_world_none : forall es, alookup s_rc es = None -> load_v1 (world es) CWD0 P0 = None.
+Proof.
+  intros es L. unfold load_v1.
+  assert (NL : nolink (alookup s_rc es)) by (rewrite L; exact I).
+  rewrite (isfile_child es s_rc clean_rc NL), L. reflexivity.
+Qed.
+
+Lemma stat_child2_none : forall es a b, cleanb a = true -> cleanb b = true -> alookup a es = None ->
+  os_stat (world es) CWD0 (path_join (path_join P0 a) b) = None.
+Proof.
+  intros es a b Ha Hb La. unfold os_stat, os_resolve.
+  destruct (path_join (path_join P0 a) b) eqn:E;
+    [rewrite (pj_child2 a b Ha Hb) in E; discriminate|]. rewrite <- E.
+  rewrite (split_child2 a b Ha Hb), FUEL_unfold, W_skip.
+  rewrite (W_look _ (world es) [] s_p [a; b] _ clean_p (get_root_nil es)).
+  change (alookup s_p [(s_p, Dir es)]) with (Some (Dir es)). cbv iota.
+  rewrite (W_look _ (world es) [s_p] a [b] es Ha (get_p es)). rewrite La. reflexivity.
+Qed.
+
+Lemma load_v2_world_none : forall es, alookup s_dotsignac es = None -> load_v2 (world es) CWD0 P0 = None.
+Proof.
+  intros es L. unfold load_v2, os_isfile.
+  rewrite (stat_child2_none es s_dotsignac s_config clean_dotsignac clean_config L). reflexivity.
+Qed.
+
+Lemma load_v2_world : forall es cd c, alookup s_dotsignac es = Some (Dir cd) ->
+  alookup s_config cd = Some (File (FCfg c)) -> load_v2 (world es) CWD0 P0 = Some c.
+Proof.
+  intros es cd c L Lc. unfold load_v2, os_isfile, read_cfg.
+  assert (NL : nolink (alookup s_config cd)) by (rewrite Lc; exact I).
+  rewrite (stat_child2 es s_dotsignac s_config cd clean_dotsignac clean_config L NL), Lc. reflexivity.
+Qed.
+
+(* ------------------------------------------------------------------ association-list bookkeeping *)
+Lemma alookup_aset_if : forall A q k (v : A) l,
+  alookup q (aset k v l) = if str_eqb q k then Some v else alookup q l.
+Proof.
+  intros A q k v l. destruct (str_eqb q k) eqn:E.
+  - apply str_eqb_eq in E. subst q. apply alookup_aset_same.
+  - apply str_eqb_neq in E. apply alookup_aset_other. auto.
+Qed.
+
+Lemma alookup_aremove_if : forall A q k (l : list (str * A)),
+  alookup q (aremove k l) = if str_eqb q k then None else alookup q l.
+Proof.
+  intros A q k l. destruct (str_eqb q k) eqn:E.
+  - apply str_eqb_eq in E. subst q. apply alookup_aremove_same.
+  - apply str_eqb_neq in E. apply alookup_aremove_other. auto.
+Qed.
+
+Ltac eqb_compute :=
+  repeat match goal with
+  | |- context [str_eqb ?a ?b] =>
+      let v := eval vm_compute in (str_eqb a b) in
+      match v with
+      | true => change (str_eqb a b) with true
+      | false => change (str_eqb a b) with false
+      end
+  end.
+
+Ltac lk := repeat (rewrite alookup_aset_if || rewrite alookup_aremove_if); eqb_compute; cbv iota.
+
+(* ------------------------------------------------------------------ the migration on directory entries
+   [mig_entries] is the v1 -> v2 step written as a pure function on the entries of the project
+   directory, mirroring _migrate_v1_to_v2 statement by statement; [mig_refines] shows that the
+   path-level model of Migrate.v computes exactly this on /p. *)
+Definition fileish (x : option node) : Prop :=
+  match x with None => True | Some (File _) => True | _ => False end.
+
+Definition dot_of (es : list (str * node)) : list (str * node) :=
+  match alookup s_dotsignac es with Some (Dir cd) => cd | _ => [] end.
+
+Definition move_entry (old new : str) (es : list (str * node)) : list (str * node) :=
+  match alookup old es with
+  | Some (File d) => aset s_dotsignac (Dir (aset new (File d) (dot_of es))) (aremove old es)
+  | _ => es
+  end.
+
+Definition ws_entries (c : cfgrec) (es : list (str * node)) : list (str * node) :=
+  match cws c with
+  | Some w =>
+      if str_eqb w s_workspace then es
+      else match alookup w es with
+           | Some x => aset s_workspace x (aremove w es)
+           | None => es
+           end
+  | None => es
+  end.
+
+Definition doc_entries (name : str) (es : list (str * node)) : list (str * node) :=
+  if str_eqb name s_None then es
+  else aset s_doc (File (FJson (JObj
+         match alookup s_doc es with
+         | Some (File (FJson (JObj kvs))) => aset s_name_key (JStr name) kvs
+         | _ => [(s_name_key, JStr name)]
+         end))) es.
+
+Definition stripped (c : cfgrec) : cfgrec := {| cv := cv c; cproj := None; cws := None |}.
+
+Definition mig_entries (c : cfgrec) (name : str) (es : list (str * node)) : list (str * node) :=
+  let esB := doc_entries name (ws_entries c es) in
+  let esC := aset s_rc (File (FCfg (stripped c))) esB in
+  let esD := aset s_dotsignac (Dir []) esC in
+  let esE := aset s_dotsignac (Dir (aset s_config (File (FCfg (stripped c))) [])) (aremove s_rc esD) in
+  move_entry s_cache_old s_cache_new (move_entry s_hist_old s_hist_new esE).
+
+Definition bump2_entries (es : list (str * node)) : list (str * node) :=
+  aset s_dotsignac (Dir (aset s_config (File (FCfg {| cv := Some 2%Z; cproj := None; cws := None |})) (dot_of es))) es.
+
+(* the hypotheses of the preservation theorem on the directory content *)
+Record mig_pre (es : list (str * node)) (c : cfgrec) (name : str) : Prop := {
+  mp_rc : alookup s_rc es = Some (File (FCfg c));
+  mp_name : cproj c = Some name;
+  mp_nodot : alookup s_dotsignac es = None;
+  mp_doc : alookup s_doc es = None \/ exists kvs, alookup s_doc es = Some (File (FJson (JObj kvs)));
+  mp_hist : fileish (alookup s_hist_old es);
+  mp_cache : fileish (alookup s_cache_old es);
+  (* the workspace: default name, or a custom single-component name whose directory EXISTS
+     (this is the side condition F17 violates) and no 'workspace' entry in the way *)
+  mp_ws : cws c = None \/ cws c = Some s_workspace \/
+          exists w ws, cws c = Some w /\ cleanb w = true /\ w <> s_workspace /\
+                       alookup w es = Some (Dir ws) /\ alookup s_workspace es = None
+}.
